@@ -3,6 +3,10 @@ the documented graph-reduction result. Used as an implementation-independent ora
 from __future__ import annotations
 
 
+class Ambiguous(Exception):
+    """Several outcomes are admissible (a catch around a container with several failing children)."""
+
+
 class Raised(Exception):
     def __init__(self, msgs):
         self.msgs = set(msgs)
@@ -52,5 +56,5 @@ def ref_eval(spec, ctx=None):
         except Raised as r:
             if len(r.msgs) == 1:
                 return ("recovered", next(iter(r.msgs)))
-            raise Raised({"<one of several>"}) from None
+            raise Ambiguous() from None
     raise AssertionError(kind)
